@@ -17,9 +17,22 @@ namespace PM
 
 /-! ### fill_before: the chosen filler types -/
 
-mutual
+/-- the loop `for i in match.next` of `search`, given `search` itself for the states one level down
+    (a separate definition so that the recursion of `fillSearchO` is structural in the fuel and the
+    kernel can evaluate it) -/
+def fillEdgesO (search : Nat → List TypeId → List Nat → Option (List TypeId) × List Nat) (gen : TypeId → Bool) :
+    (edges : List (TypeId × Nat)) → (types : List TypeId) → (seen : List Nat) → Option (List TypeId) × List Nat
+  | [], _, seen => (none, seen)
+  | (t, nxt) :: rest, types, seen =>
+    if gen t && !seen.contains nxt then
+      match search nxt (types ++ [t]) (nxt :: seen) with
+      | (some r, seen') => (some r, seen')
+      | (none, seen') => fillEdgesO search gen rest types seen'
+    else fillEdgesO search gen rest types seen
+
 /-- `search(match, types)`; returns the answer and the updated seen-list.  `fuel` bounds the recursion
-    depth (each recursive call first marks a new state as seen, so the number of states + 1 suffices). -/
+    depth (each recursive call first marks a new state as seen, so the number of states + 1 suffices:
+    Proofs/FillOrder.lean `fillBeforeTypes_complete`). -/
 def fillSearchO (d : Dfa) (gen : TypeId → Bool) (after : List TypeId) (toEnd : Bool) :
     (fuel : Nat) → (q : Nat) → (types : List TypeId) → (seen : List Nat) → Option (List TypeId) × List Nat
   | 0, _, _, seen => (none, seen)
@@ -28,19 +41,7 @@ def fillSearchO (d : Dfa) (gen : TypeId → Bool) (after : List TypeId) (toEnd :
       | some f => !toEnd || d.validEnd f
       | none => false
     if finished then (some types, seen)
-    else fillEdgesO d gen after toEnd fuel (d.edgesOf q) types seen
-/-- the loop `for i in match.next` -/
-def fillEdgesO (d : Dfa) (gen : TypeId → Bool) (after : List TypeId) (toEnd : Bool) :
-    (fuel : Nat) → (edges : List (TypeId × Nat)) → (types : List TypeId) → (seen : List Nat) →
-      Option (List TypeId) × List Nat
-  | _, [], _, seen => (none, seen)
-  | fuel, (t, nxt) :: rest, types, seen =>
-    if gen t && !seen.contains nxt then
-      match fillSearchO d gen after toEnd fuel nxt (types ++ [t]) (nxt :: seen) with
-      | (some r, seen') => (some r, seen')
-      | (none, seen') => fillEdgesO d gen after toEnd fuel rest types seen'
-    else fillEdgesO d gen after toEnd fuel rest types seen
-end
+    else fillEdgesO (fillSearchO d gen after toEnd fuel) gen (d.edgesOf q) types seen
 
 /-- `match.fill_before(after, to_end, start_index)` as the list of filler *types*
     (`after` = the types of `after[start_index:]`); `none` = Python `None` -/
